@@ -711,7 +711,12 @@ func run(s Script) (nontrivial bool, key string, f *vt.Finding) {
 	return e.nt > 0, key, nil
 }
 
-func gen(all bool) func(t *rapid.T) Script {
+func gen(all bool) func(t *rapid.T) Script { return genMode(all, false) }
+
+// genMode: parts=true forces the legacy batcher (the only configuration in which a stored request is exported in
+// parts, merged with its neighbours) together with retry, so that every script is about parts of requests that
+// end differently (one interrupted by shutdown or lost to a death, another finished)
+func genMode(all, parts bool) func(t *rapid.T) Script {
 	return func(t *rapid.T) Script {
 		s := Script{AllCuts: all}
 		s.Cfg = Cfg{
@@ -730,9 +735,20 @@ func gen(all bool) func(t *rapid.T) Script {
 			}
 			s.Cfg.Sibling = rapid.SampledFrom(others).Draw(t, "sibling_signal")
 		}
-		if rapid.IntRange(0, 2).Draw(t, "legacy_batcher") == 0 {
+		if parts {
+			s.Cfg.Retry = rapid.IntRange(0, 5).Draw(t, "retry2") != 0
+		}
+		if parts || rapid.IntRange(0, 2).Draw(t, "legacy_batcher") == 0 {
 			s.Cfg.BatchMax = rapid.IntRange(1, 3).Draw(t, "batch_max")
 			s.Cfg.BatchMin = rapid.IntRange(0, s.Cfg.BatchMax).Draw(t, "batch_min")
+			if rapid.Bool().Draw(t, "min=max") {
+				// a request below min_size waits in the batcher; the next one is merged into it and split
+				s.Cfg.BatchMin = s.Cfg.BatchMax
+			}
+		}
+		maxItems := 4
+		if 2*s.Cfg.BatchMax+1 > maxItems {
+			maxItems = 2*s.Cfg.BatchMax + 1 // merged totals that are exact multiples of max_size (parts of equal size)
 		}
 		n := rapid.IntRange(1, 25).Draw(t, "nops")
 		if all {
@@ -741,7 +757,7 @@ func gen(all bool) func(t *rapid.T) Script {
 		for i := 0; i < n; i++ {
 			switch k := rapid.IntRange(0, 9).Draw(t, "op"); {
 			case k <= 4:
-				s.Ops = append(s.Ops, OpS{Kind: "enq", Items: rapid.IntRange(1, 4).Draw(t, "items"), Sib: s.Cfg.Sibling != "" && rapid.Bool().Draw(t, "sib")})
+				s.Ops = append(s.Ops, OpS{Kind: "enq", Items: rapid.IntRange(1, maxItems).Draw(t, "items"), Sib: s.Cfg.Sibling != "" && rapid.Bool().Draw(t, "sib")})
 			case k <= 8:
 				s.Ops = append(s.Ops, OpS{Kind: "rel", Pick: rapid.IntRange(0, 2).Draw(t, "pick"),
 					Outcome: rapid.SampledFrom([]string{"ok", "ok", "perm", "transient", "transient"}).Draw(t, "outcome")})
@@ -767,6 +783,18 @@ func gen(all bool) func(t *rapid.T) Script {
 
 func TestCrashCuts(t *testing.T) {
 	vt.Run(t, cQ, vt.N(2000, 60000), gen(false), run)
+}
+
+var cParts = vt.New("C01", "crash-cuts-request-parts")
+
+func TestCrashCutsParts(t *testing.T) {
+	runParts := func(s Script) (bool, string, *vt.Finding) {
+		save := cQ
+		cQ = cParts
+		defer func() { cQ = save }()
+		return run(s)
+	}
+	vt.Run(t, cParts, vt.N(1500, 40000), genMode(false, true), runParts)
 }
 
 var cAll = vt.New("C01", "all-cuts")
